@@ -172,14 +172,27 @@ def validate(runs_by_mod, workdir, tag, workers=4, diag_max=3):
             for r in runs:
                 f.write(json.dumps(r) + "\n")
         o = tlc_trace(mod, rf, workdir, workers=workers)
+        tlc_error = None
         if "Model checking completed" not in o:
-            raise RuntimeError("Trace_%s: TLC failed:\n%s" % (mod, o[-3000:]))
+            # TLC could not even evaluate the L2 actions on some recorded run (the code does something the
+            # specification has no value for): that is a disagreement between code and spec, i.e. drift -
+            # never a verdict.  Runs not accepted before the error count as rejected.
+            if "Parsing or semantic analysis failed" in o or "Error: Could not" in o:
+                raise RuntimeError("Trace_%s: TLC failed:\n%s" % (mod, o[-3000:]))
+            m = [l for l in o.splitlines() if l.startswith("Error:")]
+            tlc_error = (m[0] if m else "TLC stopped")[:300]
         acc = set()
         for line in o.splitlines():
             if line.startswith('"ACC '):
                 acc.add(int(line.strip('"').split()[1]))
         rej = [i for i in range(1, len(runs) + 1) if i not in acc]
         res = dict(runs=len(runs), accepted=len(acc), rejected=len(rej), secs=round(time.time() - t0, 1), first_rejections=[])
+        if tlc_error:
+            res["tlc_evaluation_error"] = tlc_error
+            res["first_rejections"].append(dict(id=runs[rej[0] - 1]["id"] if rej else "?", matched=0, of=0, next_event=None,
+                                                prev_events=[], note="TLC evaluation error: " + tlc_error))
+            out[mod] = res
+            continue
         # diagnose the first few rejected runs: longest matched prefix, first unmatched event
         for i in rej[:diag_max]:
             r = runs[i - 1]
